@@ -352,7 +352,7 @@ RBDL_DLLAPI void CalcZeroMomentPoint (
   //     n * f
   Vector3d n_0 = hdot_tot.block<3,1>(0,0);
   Vector3d f = hdot_tot.block<3,1>(3,0);
-  *zmp = normal.cross(n_0) / normal.dot(f);
+  *zmp = (normal.cross(n_0) + normal.dot(point) * f) / normal.dot(f);
 
   // double distance = (hdot_tot - point).dot(normal);
   // zmp = hdot_tot - distance * normal;
